@@ -8,6 +8,7 @@
   validation) and the constant ties in Tie/C05.
 -/
 import Proofs.FileWrite
+import Props.C01
 namespace AgeModel
 namespace Props.C05
 open Format Stream
@@ -86,6 +87,11 @@ theorem file_layout (P : Prims) (C : Nat) (fk : Bytes) (stanzas : List Stanza) (
         B64.encRaw (P.hmac (P.hkdf fk [] headerInfo 32) (Format.intro ++ marshalStanzas stanzas ++ footerPrefix)) ++ [nl] ++
         nonce ++ Stream.encrypt P.aead C (P.hkdf fk nonce payloadInfo 32) pt := by
   simp [specFile, marshal, marshalNoMAC, headerMAC, streamKey]
+
+/-- non-vacuity of `impl_encrypt_eq_spec`: Encrypt accepts a concrete input (toy primitives, chunk size 4) -/
+example : ∃ file, encryptFile Prims.toy 4 (List.replicate 100 7) [Recipient.x25519 (List.replicate 32 0)] [[1, 2], [3, 4, 5]].flatten = .ok file :=
+  let ⟨f, _, _, h, _, _⟩ := Props.C01.nonvacuous_roundtrip
+  ⟨f, h⟩
 
 end Props.C05
 end AgeModel
